@@ -347,6 +347,7 @@ def request(suite, info):
 
 
 def legal(suite, info):
+    """the parameters the generator accepts (the model follows the code)"""
     if suite == "php":
         return info["m"] >= 0 and info["n"] >= 0
     if suite == "bphp":
@@ -358,6 +359,14 @@ def legal(suite, info):
     if suite == "cliquecol":
         return min(info["n"], info["k"], info["c"]) >= 0
     return True
+
+
+def documented_legal(suite, info):
+    """the parameters the DOCSTRING declares legal; differs from `legal` only for the binary
+    pigeonhole principle ("must be >= 0", ValueError "if less than zero") — finding D37"""
+    if suite == "bphp":
+        return info["m"] >= 0 and info["n"] >= 0
+    return legal(suite, info)
 
 
 def specification(suite, info):
@@ -442,6 +451,8 @@ def check_property(suite, info, F):
 def cls_of(suite, info):
     tag = "opb" if info.get("opb") else "cnf"
     if not legal(suite, info):
+        if documented_legal(suite, info):
+            return "{}:documented-legal-zero".format(suite)
         return "{}:{}:illegal".format(suite, tag)
     if suite in ("php", "gphp"):
         kind = {(0, 0): "plain", (1, 0): "functional", (0, 1): "onto", (1, 1): "matching"}[(int(bool(info["f"])), int(bool(info["o"])))]
@@ -467,6 +478,10 @@ def build(suite, info):
             try:
                 real_formula(suite, info)
             except ValueError:
+                if documented_legal(suite, info):
+                    # the docstring promises a formula (zero pigeons: the empty placement exists)
+                    return {"generator_raised_on_documented_legal_input": "ValueError",
+                            "documented": "pigeons, holes must be >= 0; ValueError if less than zero"}
                 return None
             except Exception as e:
                 return {"illegal_parameters_raise": type(e).__name__, "documented": "ValueError"}
@@ -654,6 +669,7 @@ def corpus_infos():
         ("php", dict(m=3, n=3, f=1, o=1, opb=False)),
         ("gphp", dict(l=3, r=2, edges=[(3, 1), (1, 2), (1, 1)], f=0, o=0, opb=False, shape="corpus")),
         ("gphp", dict(l=2, r=0, edges=[], f=1, o=1, opb=False, shape="corpus")),
+        ("bphp", dict(m=0, n=1, opb=False)),                       # D37: documented legal, raises
         ("bphp", dict(m=3, n=1, opb=False)),                       # zero bits
         ("bphp", dict(m=3, n=5, opb=False)),
         ("rphp", dict(m=2, r=0, n=2, opb=False)),                  # no resting place: block `r` never created
